@@ -10,7 +10,8 @@ META = {
                    "`resid < residual_tolerance` or the breakdown test `beta < norm_tolerance` was taken true; "
                    "krylov_energy_minimization returns only when converged or happy_breakdown was established "
                    "and raises otherwise; only the restart driver calls the single-cycle routine; the DMRG "
-                   "client uses the raising entry.",
+                   "client uses the raising entry. "
+                   "CONV-rewrite: no function of the solver modules overwrites converged/happy_breakdown on an existing result (dataclasses.replace or attribute store).",
     "not_decided": "variational bound, Rayleigh quotient, value of the residual (numerical)",
     "trusted_base": ["CPython ast", "sa.interp"],
     "assumptions": ["dataclasses.replace keeps the converged flag of its argument"],
